@@ -561,6 +561,22 @@ class Ctx(object):
             print('  ' + what[:500], flush=True)
         return path
 
+    def extension_failure(self, what, replay):
+        """A failure on inputs OUTSIDE the quantifier domain the property states (the check also
+        evaluates a larger domain that the model and its theorems cover): reported and recorded,
+        but not a violation of the property - no VIOLATION line, no effect on the exit code."""
+        self.extension_failures = getattr(self, 'extension_failures', 0) + 1
+        os.makedirs(os.path.join(VERIF, 'replays'), exist_ok=True)
+        path = os.path.join(VERIF, 'replays', '%s_%d_ext%d.json' % (self.prop, self.seed, self.extension_failures))
+        with open(path, 'w') as f:
+            json.dump({'property': self.prop, 'what': what, 'tier': self.tier, 'seed': self.seed,
+                       'outside_stated_domain': True, 'replay': replay}, f, indent=1, default=repr)
+        if self.extension_failures <= 8:
+            print('EXTENDED-DOMAIN-FAILURE: property=%s (outside the stated quantifier domain, not a violation) replay=%s %s'
+                  % (self.prop, path, what[:300]), flush=True)
+        self.coverage['extended_domain_failures'] = self.extension_failures
+        return path
+
     def known_finding(self, fid, what):
         if fid not in self.known:
             self.known.append(fid)
